@@ -551,7 +551,10 @@ func init() {
 			{"newIntPoolSkeleton", poolFile, "NewIntPool"}, {"nameTableSkeleton", file, "Dissect.SubexpNameTable"},
 			{"compileFnSkeleton", file, "Compile"}, {"mustCompileSkeleton", file, "MustCompile"},
 			{"toFactorySkeleton", "pkg/matchers/factory.go", "ToFactory"},
-			{"factoryCreateSkeleton", "pkg/matchers/factory.go", "factoryWrapper.CreateInstance"}} {
+			{"factoryCreateSkeleton", "pkg/matchers/factory.go", "factoryWrapper.CreateInstance"},
+			// round 4c: how the CLI gets its matcher (-d / -m / -I): the dissect arm hands the -I flag to CompileEx,
+			// the regex arm puts "(?i)" in front of the expression
+			{"matcherWiringSkeleton", "cmd/helpers/extractorBuilder.go", "BuildMatcherFromArguments"}} {
 			c.Fingerprint(t.file, t.fn)
 			sk, ok := c12Skeleton(c, c.Func(t.file, t.fn))
 			c12EmitList(&sb, t.def, sk, ok)
